@@ -351,7 +351,10 @@ def fit_scipy(
         ndf = s.x.shape[0]
         min_nll = s.fun / grad_scale
         success = s.success
-        hess_inv = fcn.vm.trans_error_matrix(s.hess_inv * grad_scale, s.x)
+        if hasattr(s, "hess_inv"):  # not provided by CG and Nelder-Mead
+            hess_inv = fcn.vm.trans_error_matrix(
+                s.hess_inv * grad_scale, s.x
+            )
         fcn.vm.remove_bound()
 
         xn = fcn.vm.get_all_val()
@@ -485,7 +488,8 @@ def fit_newton_cg(
     ndf = s.x.shape[0]
     min_nll = s.fun
     if not s.success:
-        if np.min(np.abs(s.jac)) < gtol:
+        # scipy returns no gradient when it gives up before the first step
+        if s.jac is not None and np.min(np.abs(s.jac)) < gtol:
             s.success = True
             s.message = s.message + "\n But gradients allow"
     success = s.success
